@@ -9,16 +9,24 @@ heap; no repository code runs) extended by what whole operations need:
     token installed in the tree object may be called, its outcome is supplied by an
     oracle (the abstract assignment of comparator outcomes: a total order of the
     node names);
-  * switch statements, embedded assignments, ++/--, addresses of locals;
+  * switch statements, embedded assignments, ++/--, compound literals;
+  * storage outside the tree as a tree of values (scalars, structs, arrays) with pointers into it: local structs and
+    arrays (also nested, passed by address, returned by value), out-parameters, pointer arithmetic and comparison within
+    one array, file-scope and static local objects with their initialisers (const tables of function pointers, of
+    structs, of integers); static storage that an operation writes is part of the heap (Heap.cells), so it is carried
+    from one operation of a history to the next;
+  * calls through a function pointer whose value is a repository function are ordinary calls (table-driven dispatch);
+    only calls that leave the repository through a pointer are callbacks (`indirect`);
+  * memset / memcpy of one whole tree object, __builtin_expect, abs; stores to unsigned objects wrap around;
   * uninitialised memory: a JUNK value may be copied but never inspected;
-  * a log of every heap write (used for purity demands).
+  * a log of every heap write (used for purity demands), writes to static storage included.
 
 On top of it: the families of trees (every AVL shape up to a height; the state
 graph reachable from the empty tree over K keys), the audit of a heap against the
 expected in-order sequence, and the runners for insert / delete / traversal.
 Nothing in here mentions a local variable or a static function of iv_avl.c.
 """
-from ..core import AnalysisBroken, canon, strip
+from ..core import AnalysisBroken, canon, strip, strip_load
 from ..heap import Heap, Stuck, NULL
 
 TREE = ('iv_avl_tree', 'iv_avl_node')
@@ -46,7 +54,32 @@ class Frame:
         self.conds = []       # outcomes of `c ? a : b` decided by the CFG, not yet consumed by the expression that uses the value
 
 
+GLOBALS = 'G'           # the storage space of file-scope and static local objects (the roots live in Heap.cells)
+
+# Storage outside the tree (locals, globals) is a tree of values: a scalar, ('struct', {field: value}) or
+# ('array', {index: value}).  Two reserved keys of such a dict: '?' = value of every member that was never written
+# (absent: JUNK; 0 for statically / partially initialised objects), '#' = number of elements of an array (when known).
+# A pointer into it is ('memref', space, path): space is a Frame or GLOBALS, path = (root name, step, ...).
+
+
+def _agg(v):
+    return v.__class__ is tuple and len(v) == 2 and (v[0] == 'struct' or v[0] == 'array')
+
+
+def _copyv(v):
+    if _agg(v):
+        return (v[0], {k: _copyv(x) for k, x in v[1].items()})
+    return v
+
+
+def _freeze(v):
+    if _agg(v):
+        return (v[0], tuple(sorted(((repr(k), _freeze(x)) for k, x in v[1].items()))))
+    return v
+
+
 class Ref:
+    """an lvalue: ('field', node, field) | ('obj', node) | ('mem', space, path) | ('const', value)"""
     __slots__ = ('kind', 'a', 'b')
 
     def __init__(self, kind, a, b=None):
@@ -56,8 +89,41 @@ class Ref:
 def clone(H):
     G = Heap()
     G.nodes = {k: dict(v) for k, v in H.nodes.items()}
-    G.cells = dict(H.cells)
+    G.cells = {k: _copyv(v) for k, v in H.cells.items()}
     return G
+
+
+def frozen_globals(H):
+    """the state of the objects outside the tree that some operation has written (part of the state of a history)"""
+    return tuple(sorted((k, _freeze(v)) for k, v in H.cells.items()))
+
+
+_UNSIGNED = {'unsigned char': 8, 'uint8_t': 8, 'unsigned short': 16, 'uint16_t': 16, 'unsigned int': 32, 'unsigned': 32, 'uint32_t': 32,
+             'unsigned long': 64, 'size_t': 64, 'uint64_t': 64, 'unsigned long long': 64, 'uintptr_t': 64}
+
+
+def _mask(t):
+    """2^n - 1 for an object of an unsigned integer type (stores wrap around), else None"""
+    bits = _UNSIGNED.get(str(t or '').replace('const ', '').replace('volatile ', '').strip())
+    return (1 << bits) - 1 if bits else None
+
+
+BYTE_POINTERS = ('char *', 'unsigned char *', 'signed char *', 'uint8_t *', 'void *')
+
+
+def _byte_cast(x):
+    """the expression is `(char *)p` (byte address arithmetic follows)"""
+    x = strip_load(x)
+    return isinstance(x, dict) and x.get('k') == 'cast' and str(x.get('to', '')).replace('const ', '').strip() in BYTE_POINTERS
+
+
+PURE_BUILTINS = ('memset', 'memcpy', 'memmove', '__builtin_expect', 'abs', 'labs')     # C library / compiler functions with a modelled meaning
+PTR_FIELDS = ('left', 'right', 'parent', 'root', 'compare')     # guarded by c16.operations: the public records have no others
+
+
+def _is_ptr_type(t):
+    t = str(t or '')
+    return '*' in t and not t.rstrip().endswith(']')
 
 
 class Machine:
@@ -67,11 +133,97 @@ class Machine:
         self.oracle = oracle          # oracle(machine, fnvalue, args) -> int
         self.steps = 0
         self.max_steps = max_steps
-        self.writes = []              # (node, field, old, new, loc)
-        self.indirect = []            # (fnvalue, args, loc)
+        self.writes = []              # (node, field, old, new, loc); writes to static storage: ('<static>', path, old, new, loc)
+        self.indirect = []            # (fnvalue, args, loc): calls through a pointer that leave the repository (callbacks)
         self.calls = []               # names of repository functions entered
         self.pending = {}             # (callee, loc) -> value of a call evaluated at its event
         self.code = Code.of(prog)
+
+    # -- static storage -------------------------------------------------------
+    def _gkey(self, e, fr):
+        if e.get('vk') == 'staticlocal':
+            return '%s::%s' % (fr.fn.q, e['name'])
+        u = self.prog.unit_of(fr.fn) if fr is not None and fr.fn is not None else None
+        return self.prog.global_key(u, e['name']) if u else e['name']
+
+    def _ginit(self, key):
+        """initial value of a static object (C semantics: the initialiser, everything else zero); computed once per program"""
+        cache = self.prog.__dict__.setdefault('_h16_ginit', {})
+        if key in cache:
+            return cache[key]
+        if '::' in key:
+            fq, name = key.rsplit('::', 1)
+            f = self.prog.funcs.get(fq)
+            g = None
+            for e in (f.events() if f is not None else ()):
+                if e['ev'] == 'decl' and e.get('static') and e['name'] == name:
+                    g = e
+            if g is None:
+                for e in (f.pristine().events() if f is not None else ()):
+                    if e['ev'] == 'decl' and e.get('static') and e['name'] == name:
+                        g = e
+        else:
+            g = self.prog.globals.get(key)
+        if g is None or g.get('extern_decl'):
+            raise Stuck('static object %s has no definition in the analysed sources' % key)
+        v = self.initval(g.get('init'), g, None, zero=True)
+        cache[key] = v
+        return v
+
+    def zero_of(self, ty):
+        """the zero value of an object described by a fact with 'type' (and 'record' / 'ptr' / 'bound')"""
+        t = str(ty.get('type', ''))
+        if ty.get('ptr') or _is_ptr_type(t):
+            return NULL
+        if 'bound' in ty or t.rstrip().endswith(']'):
+            d = {'?': 0}
+            if 'bound' in ty:
+                d['#'] = ty['bound']
+            return ('array', d)
+        rec = ty.get('record')
+        if rec and not ty.get('ptr'):
+            d = {'?': 0}
+            for fl in self.prog.records.get(rec, {}).get('fields', []):
+                d[fl['name']] = self.zero_of(fl)
+            return ('struct', d)
+        return 0
+
+    def initval(self, init, ty, fr, zero):
+        """value of an object with initialiser `init` (None: none) of the type described by `ty`"""
+        if init is None:
+            if zero:
+                return self.zero_of(ty)
+            t = str(ty.get('type', ''))
+            if 'bound' in ty:
+                return ('array', {'#': ty['bound']})
+            if t.rstrip().endswith(']'):
+                return ('array', {})
+            return JUNK
+        if isinstance(init, dict) and init.get('k') == 'init':
+            if 'fields' in init:
+                rec = init.get('record') or ty.get('record')
+                ftypes = {fl['name']: fl for fl in self.prog.records.get(rec, {}).get('fields', [])}
+                d = {'?': 0}
+                for fl in ftypes:
+                    d[fl] = self.zero_of(ftypes[fl])
+                for fl, x in init['fields'].items():
+                    d[fl] = self.initval(x, ftypes.get(fl, {}), fr, True)
+                return ('struct', d)
+            elems = init.get('elems', [])
+            d = {'?': 0, '#': ty.get('bound', len(elems))}
+            t = str(ty.get('type', ''))
+            ety = {'type': t[:t.rindex('[')] + t[t.index(']', t.rindex('[')) + 1:]} if '[' in t else {}
+            if '[' in t and '[' not in ety['type'] and ty.get('record'):
+                ety['record'] = ty['record']
+            for i, x in enumerate(elems):
+                d[i] = self.initval(x, ety, fr, True)
+            return ('array', d)
+        if isinstance(init, dict) and init.get('k') == 'str':
+            raise Stuck('string initialiser')
+        v = self.rval(init, fr if fr is not None else Frame(None))
+        if v.__class__ is int and v == 0 and (ty.get('ptr') or _is_ptr_type(ty.get('type'))):
+            v = NULL
+        return _copyv(v)
 
     # -- lvalues ------------------------------------------------------------
     def lval(self, e, fr):
@@ -79,38 +231,56 @@ class Machine:
         k = e.get('k')
         if k == 'var':
             if e.get('vk') in ('global', 'staticlocal'):
-                raise Stuck('global variable %s' % e['name'])
-            return Ref('local', fr, e['name'])
+                return Ref('mem', GLOBALS, (self._gkey(e, fr),))
+            if e.get('vk') == 'func':
+                return Ref('const', ('func', e['name']))
+            return Ref('mem', fr, (e['name'],))
         if k == 'member':
             if e['arrow']:
-                base = self.rval(e['base'], fr)
-                return self._field(base, e['field'], e)
+                return self._field(self.rval(e['base'], fr), e['field'], e)
             b = strip(e['base'])
-            if isinstance(b, dict) and b.get('k') == 'deref':      # (*p).f
-                return self._field(self.rval(b['e'], fr), e['field'], e)
-            if isinstance(b, dict) and b.get('k') == 'var' and b.get('vk') in ('local', 'param'):
-                return Ref('sfield', (fr, b['name']), e['field'])   # field of a by-value local struct
+            if isinstance(b, dict) and b.get('k') in ('var', 'member', 'deref', 'index'):
+                r = self.lval(b, fr)
+            else:                                                   # member of a struct value (result of a call, ?:, ...)
+                tmp = Frame(None)
+                tmp.vars['$value'] = self.rval(b, fr)
+                r = Ref('mem', tmp, ('$value',))
+            if r.kind == 'obj':                                     # (*p).f
+                return self._field(r.a, e['field'], e)
+            if r.kind == 'mem':
+                return Ref('mem', r.a, r.b + (e['field'],))
             raise Stuck('member of a by-value object %s' % canon(e))
         if k == 'deref':
             p = self.rval(e['e'], fr)
             return self._target(p, e)
         if k == 'index':
-            b = strip(e['base'])
-            if isinstance(b, dict) and b.get('k') == 'var' and '[' in str(b.get('type', '')):
-                bv = ('localref', fr, (b['name'], 0))               # a local array
-            else:
-                bv = self.rval(e['base'], fr)
+            bv = self.rval(e['base'], fr)
             i = self.num(self.rval(e['idx'], fr), e)
-            if isinstance(bv, tuple) and bv[0] == 'localref' and isinstance(bv[2], tuple):
-                j = bv[2][1] + i
-                if j < 0 or ('bound' in e and j >= e['bound']):
-                    raise Stuck('array index %d out of bounds in %s' % (j, canon(e)))
-                return Ref('local', bv[1], (bv[2][0], j))
-            raise Stuck('array access %s' % canon(e))
+            p = self.padd(bv, i, e)
+            if 'bound' in e and p.__class__ is tuple and p[0] == 'memref' and not 0 <= p[2][-1] < e['bound']:
+                raise Stuck('array index %d out of bounds in %s' % (p[2][-1], canon(e)))
+            return self._target(p, e)
         raise Stuck('not an lvalue: %s' % canon(e))
 
+    def padd(self, p, i, e):
+        """pointer + integer"""
+        if p.__class__ is tuple and p[0] == 'memref':
+            if i == 0:
+                return p
+            last = p[2][-1]
+            if last.__class__ is int and len(p[2]) > 1:
+                return ('memref', p[1], p[2][:-1] + (last + i,))
+            raise Stuck('pointer arithmetic on the address of a single object in %s' % _say(e))
+        if i == 0 and (p.__class__ is str or (p.__class__ is tuple and p[0] == 'fieldref')):
+            return p
+        if p is NULL or p is JUNK:
+            raise Stuck('arithmetic on a %s pointer in %s' % ('NULL' if p is NULL else 'uninitialised', _say(e)))
+        raise Stuck('pointer arithmetic beyond a single object in %s' % _say(e))
+
     def _field(self, base, field, e):
-        if base is NULL:
+        if base.__class__ is tuple and base[0] == 'memref':
+            return Ref('mem', base[1], base[2] + (field,))
+        if base is NULL or (base.__class__ is int and base == 0):
             raise Stuck('NULL dereference evaluating %s' % canon(e))
         if base is JUNK:
             raise Stuck('uninitialised pointer dereferenced in %s' % canon(e))
@@ -121,68 +291,106 @@ class Machine:
     def _target(self, p, e):
         if isinstance(p, tuple) and p[0] == 'fieldref':
             return Ref('field', p[1], p[2])
-        if isinstance(p, tuple) and p[0] == 'cellref':
-            return Ref('cell', p[1])
-        if isinstance(p, tuple) and p[0] == 'localref':
-            return Ref('local', p[1], p[2])
+        if isinstance(p, tuple) and p[0] == 'memref':
+            return Ref('mem', p[1], p[2])
+        if isinstance(p, tuple) and p[0] == 'func':
+            return Ref('const', p)                                 # *f of a function designator is the function
         if isinstance(p, str) and p in self.heap.nodes:
             return Ref('obj', p)                                   # the whole object: `*a = *b`
-        if p is NULL:
+        if p is NULL or (p.__class__ is int and p == 0):
             raise Stuck('NULL dereference evaluating %s' % canon(e))
         if p is JUNK:
             raise Stuck('uninitialised pointer dereferenced in %s' % canon(e))
         raise Stuck('dereference of %r in %s' % (p, canon(e)))
 
+    def _root(self, space, name):
+        if space is GLOBALS:
+            c = self.heap.cells
+            return c[name] if name in c else self._ginit(name)
+        return space.vars.get(name, JUNK)
+
     def load(self, ref):
-        if ref.kind == 'local':
-            if ref.b not in ref.a.vars:
-                return JUNK
-            return ref.a.vars[ref.b]
-        if ref.kind == 'cell':
-            return self.heap.cells[ref.a]
-        if ref.kind == 'sfield':
-            v = ref.a[0].vars.get(ref.a[1])
-            if not (isinstance(v, tuple) and v[0] == 'struct'):
-                return JUNK
-            return v[1].get(ref.b, JUNK)
+        kind = ref.kind
+        if kind == 'mem':
+            path = ref.b
+            v = self._root(ref.a, path[0])
+            for step in path[1:]:
+                if v is JUNK:
+                    return JUNK
+                if not _agg(v):
+                    if v.__class__ is int and v == 0:
+                        return 0                                   # a member of a zero-initialised object
+                    raise Stuck('member %r of the scalar %r' % (step, v))
+                d = v[1]
+                if step.__class__ is int and not 0 <= step < d.get('#', step + 1):
+                    raise Stuck('array index %d out of bounds (%d elements)' % (step, d['#']))
+                v = d[step] if step in d else d.get('?', JUNK)
+            return v
+        if kind == 'const':
+            return ref.a
         n = self.heap.nodes.get(ref.a)
         if n is None:
             raise Stuck('unknown object %s' % ref.a)
-        if ref.kind == 'obj':
+        if kind == 'obj':
             return ('struct', dict(n))
         if ref.b not in n:
             raise Stuck('field %s of %s not modelled' % (ref.b, ref.a))
         return n[ref.b]
 
     def store(self, ref, v, loc=None):
-        if ref.kind == 'local':
-            if isinstance(v, tuple) and v[0] == 'struct':
-                v = ('struct', dict(v[1]))
-            ref.a.vars[ref.b] = v
-        elif ref.kind == 'cell':
-            self.writes.append(('cell', ref.a, self.heap.cells.get(ref.a), v, loc))
-            self.heap.cells[ref.a] = v
-        elif ref.kind == 'sfield':
-            cur = ref.a[0].vars.get(ref.a[1])
-            if not (isinstance(cur, tuple) and cur[0] == 'struct'):
-                cur = ('struct', {})
-                ref.a[0].vars[ref.a[1]] = cur
-            cur[1][ref.b] = v
-        elif ref.kind == 'obj':
+        kind = ref.kind
+        if kind == 'mem':
+            if _agg(v):
+                v = _copyv(v)
+            space, path = ref.a, ref.b
+            if space is GLOBALS:
+                cont = self.heap.cells
+                if path[0] not in cont:
+                    cont[path[0]] = _copyv(self._ginit(path[0]))
+            else:
+                cont = space.vars
+            key = path[0]
+            root = True
+            for step in path[1:]:
+                cur = cont[key] if key in cont else JUNK if root else cont.get('?', JUNK)
+                root = False
+                if not _agg(cur):
+                    if cur is JUNK:
+                        cur = ('array' if step.__class__ is int else 'struct', {})
+                    elif cur.__class__ is int and cur == 0:           # a member of a zero-initialised object
+                        cur = ('array' if step.__class__ is int else 'struct', {'?': 0})
+                    else:
+                        raise Stuck('member %r of the scalar %r' % (step, cur))
+                    cont[key] = cur
+                cont, key = cur[1], step
+                if step.__class__ is int and not 0 <= step < cont.get('#', step + 1):
+                    raise Stuck('array index %d out of bounds (%d elements)' % (step, cont['#']))
+            if space is GLOBALS:
+                self.writes.append(('<static>', path, cont.get(key, cont.get('?', JUNK)), v, loc))
+            cont[key] = v
+        elif kind == 'obj':
             if not (isinstance(v, tuple) and v[0] == 'struct'):
                 raise Stuck('whole-object store of %r into %s' % (v, ref.a))
             n = self.heap.nodes[ref.a]
-            if set(v[1]) != set(n):
+            src = {k_: x for k_, x in v[1].items() if k_ not in ('?', '#')}
+            if not set(src) <= set(n) or (set(src) != set(n) and '?' not in v[1]):
                 raise Stuck('object copy between different record types into %s' % ref.a)
             for fld in sorted(n):
-                self.writes.append((ref.a, fld, n[fld], v[1].get(fld, JUNK), loc))
-                n[fld] = v[1].get(fld, JUNK)
+                x = src[fld] if fld in src else v[1]['?']
+                self._put(ref.a, n, fld, x, loc)
+        elif kind == 'const':
+            raise Stuck('store to a function')
         else:
             n = self.heap.nodes.get(ref.a)
             if n is None or ref.b not in n:
                 raise Stuck('store to unmodelled field %s of %s' % (ref.b, ref.a))
-            self.writes.append((ref.a, ref.b, n[ref.b], v, loc))
-            n[ref.b] = v
+            self._put(ref.a, n, ref.b, v, loc)
+
+    def _put(self, name, n, fld, v, loc):
+        if v.__class__ is int and v == 0 and fld in PTR_FIELDS:
+            v = NULL                                               # a zero-initialised pointer is a null pointer
+        self.writes.append((name, fld, n[fld], v, loc))
+        n[fld] = v
 
     # -- rvalues ------------------------------------------------------------
     @staticmethod
@@ -199,8 +407,31 @@ class Machine:
             raise Stuck('uninitialised value tested in %s' % _say(what))
         return v is not NULL and v != 0
 
+    def lvalue_value(self, e, fr):
+        """value of an lvalue expression; an array designates its first element"""
+        return self.value_of(self.lval(e, fr), e)
+
+    def value_of(self, r, e):
+        v = self.load(r)
+        if r.kind == 'mem' and ((v.__class__ is tuple and len(v) == 2 and v[0] == 'array') or
+                                (v is JUNK and str(e.get('type', '')).rstrip().endswith(']'))):
+            return ('memref', r.a, r.b + (0,))
+        return v
+
+    @staticmethod
+    def ptr_order(a, b):
+        """positions of two pointers into the same array, or None"""
+        if a.__class__ is tuple and b.__class__ is tuple and a[0] == 'memref' and b[0] == 'memref' and a[1] is b[1] \
+                and len(a[2]) == len(b[2]) > 1 and a[2][:-1] == b[2][:-1] and a[2][-1].__class__ is int and b[2][-1].__class__ is int:
+            return a[2][-1], b[2][-1]
+        return None
+
     def rval(self, e, fr):
         e0 = e
+        e = strip_load(e)
+        if isinstance(e, dict) and e.get('k') == 'cast' and 'e' in e:
+            v = self.rval(e['e'], fr)
+            return self.cast(v, e) if v.__class__ is tuple and v[0] == 'byteptr' else v
         e = strip(e)
         if not isinstance(e, dict):
             raise Stuck('expression %r' % (e0,))
@@ -211,24 +442,20 @@ class Machine:
             return NULL
         if k == 'var' and e.get('vk') == 'func':
             return ('func', e['name'])
-        if k == 'var' and '[' in str(e.get('type', '')) and e.get('vk') in ('local', 'param'):
-            return ('localref', fr, (e['name'], 0))               # array decays to a pointer to its first element
         if k in ('var', 'member', 'deref', 'index'):
-            return self.load(self.lval(e, fr))
+            return self.lvalue_value(e, fr)
         if k == 'addr':
             inner = strip(e['e'])
             if isinstance(inner, dict) and inner.get('k') == 'var' and inner.get('vk') == 'func':
                 return ('func', inner['name'])
             r = self.lval(e['e'], fr)
-            if r.kind == 'cell':
-                return ('cellref', r.a)
             if r.kind == 'field':
                 return ('fieldref', r.a, r.b)
             if r.kind == 'obj':
                 return r.a
-            if r.kind == 'sfield':
-                raise Stuck('address of a field of a local struct')
-            return ('localref', r.a, r.b)
+            if r.kind == 'const':
+                return r.a
+            return ('memref', r.a, r.b)
         if k == 'un':
             v = self.rval(e['e'], fr)
             if e['op'] == '!':
@@ -248,45 +475,102 @@ class Machine:
             if op == ',':
                 self.rval(e['l'], fr)
                 return self.rval(e['r'], fr)
-            a, b = self.rval(e['l'], fr), self.rval(e['r'], fr)
-            if op in ('==', '!='):
-                if a is JUNK or b is JUNK:
-                    raise Stuck('uninitialised value compared in %s' % canon(e))
-                za = a is NULL or (isinstance(a, int) and a == 0)
-                zb = b is NULL or (isinstance(b, int) and b == 0)
-                same = (za and zb) or (not za and not zb and type(a) == type(b) and a == b)
-                return int(same == (op == '=='))
-            a, b = self.num(a, e), self.num(b, e)
-            if op == '+':
-                return a + b
-            if op == '-':
-                return a - b
-            if op == '*':
-                return a * b
-            if op == '<':
-                return int(a < b)
-            if op == '>':
-                return int(a > b)
-            if op == '<=':
-                return int(a <= b)
-            if op == '>=':
-                return int(a >= b)
-            if op == '&':
-                return a & b
-            if op == '|':
-                return a | b
-            if op == '^':
-                return a ^ b
-            if op == '<<':
-                return a << b
-            if op == '>>':
-                return a >> b
-            if op in ('/', '%'):
-                if b == 0:
-                    raise Stuck('division by zero in %s' % canon(e))
-                q = abs(a) // abs(b) * (1 if (a < 0) == (b < 0) else -1)
-                return q if op == '/' else a - q * b
-            raise Stuck('operator %s' % op)
+            if op in ('+', '-') and (_byte_cast(e['l']) or (op == '+' and _byte_cast(e['r']))):
+                a, b = self.rval(e['l'], fr), self.rval(e['r'], fr)
+                if b.__class__ is not int:
+                    a, b = b, a
+                return self.byte_add(a, self.num(b, e) if op == '+' else -self.num(b, e), e)
+            return self.binop(op, self.rval(e['l'], fr), self.rval(e['r'], fr), e)
+        return self.rval_other(e, k, fr)
+
+    # -- byte addresses inside one tree object: (char *)node + offsetof(...) --------------------------
+    def _layout(self, node):
+        n = self.heap.nodes.get(node) if node.__class__ is str else None
+        if n is None:
+            raise Stuck('byte address arithmetic on %r' % (node,))
+        for rec in TREE:
+            fl = self.prog.records.get(rec, {}).get('fields', [])
+            if {f['name'] for f in fl} == set(n) and all('offset' in f for f in fl):
+                return rec, fl
+        raise Stuck('layout of %s unknown' % node)
+
+    def byte_add(self, p, i, e):
+        if p.__class__ is tuple and p[0] == 'byteptr':
+            node, off = p[1], p[2]
+        elif p.__class__ is tuple and p[0] == 'fieldref':
+            node = p[1]
+            off = [f['offset'] for f in self._layout(node)[1] if f['name'] == p[2]][0]
+        else:
+            node, off = p, 0
+        rec, fl = self._layout(node)
+        size = self.prog.records[rec].get('size')
+        if not 0 <= off + i <= (size if size is not None else off + i):
+            raise Stuck('byte offset %d outside %s in %s' % (off + i, node, canon(e)))
+        return ('byteptr', node, off + i)
+
+    def cast(self, v, e):
+        """a byte address is converted back to a typed pointer: to the object itself or to the member at that offset"""
+        to = str(e.get('to', '')).replace('const ', '').strip()
+        if to in BYTE_POINTERS:
+            return v
+        rec, fl = self._layout(v[1])
+        if v[2] == 0 and to == 'struct %s *' % rec:
+            return v[1]
+        for f in fl:
+            if f['offset'] == v[2] and to.replace(' ', '') == (str(f.get('type', '')).replace('const ', '').strip() + ' *').replace(' ', ''):
+                return ('fieldref', v[1], f['name'])
+        raise Stuck('byte offset %d of %s converted to %s: no such member' % (v[2], v[1], to))
+
+    def binop(self, op, a, b, e):
+        if op in ('==', '!='):
+            if a is JUNK or b is JUNK:
+                raise Stuck('uninitialised value compared in %s' % canon(e))
+            za = a is NULL or (isinstance(a, int) and a == 0)
+            zb = b is NULL or (isinstance(b, int) and b == 0)
+            same = (za and zb) or (not za and not zb and type(a) == type(b) and a == b)
+            return int(same == (op == '=='))
+        if a.__class__ is tuple or b.__class__ is tuple:
+            if op == '+' and (a.__class__ is int or b.__class__ is int):
+                return self.padd(a, b, e) if b.__class__ is int else self.padd(b, a, e)
+            if op == '-' and b.__class__ is int:
+                return self.padd(a, -b, e)
+            po = self.ptr_order(a, b)
+            if po is None:
+                raise Stuck('operator %s on unrelated pointers in %s' % (op, canon(e)))
+            a, b = po
+        a, b = self.num(a, e), self.num(b, e)
+        if op == '+':
+            return a + b
+        if op == '-':
+            return a - b
+        if op == '*':
+            return a * b
+        if op == '<':
+            return int(a < b)
+        if op == '>':
+            return int(a > b)
+        if op == '<=':
+            return int(a <= b)
+        if op == '>=':
+            return int(a >= b)
+        if op == '&':
+            return a & b
+        if op == '|':
+            return a | b
+        if op == '^':
+            return a ^ b
+        if op == '<<':
+            return a << b
+        if op == '>>':
+            return a >> b
+        if op in ('/', '%'):
+            if b == 0:
+                raise Stuck('division by zero in %s' % canon(e))
+            q = abs(a) // abs(b) * (1 if (a < 0) == (b < 0) else -1)
+            return q if op == '/' else a - q * b
+        raise Stuck('operator %s' % op)
+
+    def rval_other(self, e, k, fr):
         if k == 'cond':
             # the CFG already decided which arm ran (and ran the calls in it): re-reading the condition now could see a heap
             # that the arm has changed
@@ -295,17 +579,26 @@ class Machine:
             return self.rval(e['a'] if self.truth(self.rval(e['c'], fr), e) else e['b'], fr)
         if k == 'assign':
             # the store itself is an event of its own that precedes every use of the expression's value
-            return self.load(self.lval(e['l'], fr))
+            return self.lvalue_value(e['l'], fr)
         if k == 'incdec':
-            v = self.load(self.lval(e['e'], fr))
+            v = self.lvalue_value(e['e'], fr)
             if e.get('prefix'):
                 return v
-            return self.num(v, e) - (1 if e['op'] == '++' else -1)
+            d = 1 if e['op'] == '++' else -1
+            if v.__class__ is tuple:
+                return self.padd(v, -d, e)
+            v = self.num(v, e) - d
+            mask = _mask(strip(e['e']).get('type'))
+            return v & mask if mask is not None else v
         if k == 'call':
             key = (e.get('callee'), e.get('loc'))
             if key in self.pending:
                 return self.pending.pop(key)
             return self.do_call(e, fr)
+        if k == 'init':
+            return self.initval(e, e, fr, True)
+        if k == 'compound' and isinstance(e.get('e'), dict):           # (struct s){ ... } used as a value
+            return self.initval(e['e'], e['e'], fr, True)
         raise Stuck('cannot evaluate %s' % canon(e))
 
     # -- calls ----------------------------------------------------------------
@@ -313,14 +606,54 @@ class Machine:
         argfns, fnexpr = self.code.call(e)
         args = [a(self, fr) for a in argfns]
         if fnexpr is None:
+            if e['callee'] in PURE_BUILTINS and self.resolve(e['callee'], fr.fn) is None:
+                if e['callee'] in ('memset', 'memcpy', 'memmove'):
+                    return self.mem_builtin(e, args)
+                if e['callee'] == '__builtin_expect' and len(args) == 2:
+                    return args[0]
+                if len(args) == 1:
+                    return abs(self.num(args[0], e['callee']))
             return self.call(e['callee'], args, caller=fr.fn)
         fv = fnexpr(self, fr)
-        self.indirect.append((fv, args, e.get('loc')))
         if isinstance(fv, tuple) and fv[0] == 'func':
-            return self.call(fv[1], args, caller=fr.fn)
+            return self.call(fv[1], args, caller=fr.fn)         # a repository function reached through a pointer / a table
+        self.indirect.append((fv, args, e.get('loc')))
         if self.oracle is None:
             raise Stuck('indirect call through %s' % canon(e['fnexpr']))
         return self.oracle(self, fv, args, e)
+
+    def mem_builtin(self, e, args):
+        """memset(node, 0, sizeof node) / memcpy(node, node, sizeof node) on whole objects of the tree"""
+        what = canon(e) if 'k' in e else e['callee']
+        if len(args) != 3:
+            raise Stuck('call of %s' % what)
+        dst, src, n = args
+        size = e['args'][2] if isinstance(e['args'][2], dict) else {}
+        size = strip(size)
+        sz = size.get('sizeof') if isinstance(size, dict) else None
+        tname = str((sz or {}).get('type', ''))
+        node = self.heap.nodes.get(dst) if dst.__class__ is str else None
+        if node is None or sz is None or tname.replace('const ', '').strip() not in ('struct %s' % r for r in TREE):
+            raise Stuck('%s on something else than one whole tree object' % e['callee'])
+        rec = tname.replace('const ', '').strip()[len('struct '):]
+        fields = {fl['name'] for fl in self.prog.records.get(rec, {}).get('fields', [])}
+        if fields != set(node):
+            raise Stuck('%s: %s is not a %s' % (e['callee'], dst, tname))
+        if e['callee'] == 'memset':
+            if src.__class__ is not int:
+                raise Stuck('memset with a non-integer fill value')
+            if src != 0:
+                raise Stuck('memset with a non-zero byte: the pointer fields become invalid')
+            for fld in sorted(node):
+                self._put(dst, node, fld, NULL if fld in PTR_FIELDS else 0, e.get('loc'))
+            return dst
+        other = self.heap.nodes.get(src) if src.__class__ is str else None
+        if other is None or set(other) != set(node):
+            raise Stuck('%s from %r' % (e['callee'], src))
+        vals = dict(other)
+        for fld in sorted(node):
+            self._put(dst, node, fld, vals[fld], e.get('loc'))
+        return dst
 
     def resolve(self, name, caller=None):
         cache = self.prog.__dict__.setdefault('_h16_resolve', {})
@@ -351,6 +684,10 @@ class Machine:
         fr = Frame(f)
         vars_ = fr.vars
         for p, a in zip(f.params, args):
+            if a.__class__ is int and a == 0 and (p.get('ptr') or _is_ptr_type(p.get('type'))):
+                a = NULL
+            elif a.__class__ is tuple and _agg(a):
+                a = _copyv(a)
             vars_[p['name']] = a
         b = f.entry
         arms = code['arms']
@@ -375,9 +712,19 @@ class Machine:
                     elif conds:
                         del conds[:]
                 elif kind == 2:                   # return
-                    return st[1](self, fr) if st[1] is not None else None
+                    if st[1] is None:
+                        return None
+                    v = st[1](self, fr)
+                    if v.__class__ is int and v == 0 and code['retptr']:
+                        v = NULL
+                    elif v.__class__ is tuple and _agg(v):
+                        v = _copyv(v)
+                    return v
                 elif kind == 3:                   # declaration without initialiser
-                    vars_.pop(st[1], None)
+                    if st[2] is None:
+                        vars_.pop(st[1], None)
+                    else:
+                        vars_[st[1]] = _copyv(st[2])
                 elif kind == 4:                   # declaration with initialiser
                     vars_[st[1]] = st[2](self, fr)
                     if conds:
@@ -385,12 +732,19 @@ class Machine:
                 elif kind == 5:                   # ++ / -- / op=
                     e = st[1]
                     ref = self.lval(e['lhs'], fr)
-                    if e['op'] in ('++', '--'):
-                        v = self.num(self.load(ref), e['lhs']) + (1 if e['op'] == '++' else -1)
+                    cur = self.load(ref)
+                    if cur.__class__ is tuple and e['op'] in ('++', '--', '+=', '-='):
+                        d = 1 if e['op'] in ('++', '--') else self.num(self.rval(e['rhs'], fr), e['lhs'])
+                        v = self.padd(cur, d if e['op'] in ('++', '+=') else -d, e['lhs'])
+                    elif e['op'] in ('++', '--'):
+                        v = self.num(cur, e['lhs']) + (1 if e['op'] == '++' else -1)
                     else:
                         bop = {'k': 'bin', 'op': e['op'][:-1], 'l': {'k': 'int', 'v': self.num(self.load(ref), e['lhs'])},
                                'r': {'k': 'int', 'v': self.num(self.rval(e['rhs'], fr), e['lhs'])}}
                         v = self.rval(bop, fr)
+                    mask = _mask(strip(e['lhs']).get('type'))
+                    if mask is not None and v.__class__ is int:
+                        v &= mask
                     self.store(ref, v, e.get('loc'))
                 else:
                     raise Stuck(st[1])
@@ -416,6 +770,11 @@ class Machine:
                 raise Stuck(term[1])
             if b is None:
                 return None
+
+
+def _walk_exprs(e):
+    from ..core import walk
+    return walk(e)
 
 
 class Code:
@@ -446,6 +805,7 @@ class Code:
         self._keep.append(f)
         code = {}
         arms = code['arms'] = {}
+        code['retptr'] = _is_ptr_type(f.ret)
         for bid, blk in f.blocks.items():
             steps = []
             for e in blk.events:
@@ -453,13 +813,19 @@ class Code:
                 if ev == 'load':
                     continue
                 if ev == 'decl':
+                    if e.get('static'):
+                        continue                                    # static storage: initialised once, see Machine._ginit
                     if 'init' in e:
-                        if isinstance(e['init'], dict) and e['init'].get('k') in ('init', 'compound', 'str'):
-                            steps.append((9, 'aggregate local %s' % e['name']))
+                        if isinstance(e['init'], dict) and e['init'].get('k') == 'str':
+                            steps.append((9, 'character array %s' % e['name']))
+                        elif isinstance(e['init'], dict) and e['init'].get('k') == 'init':
+                            steps.append((4, e['name'], (lambda init, ty: lambda m, fr: m.initval(init, ty, fr, True))(e['init'], e)))
                         else:
                             steps.append((4, e['name'], self.rv(e['init'])))
+                    elif 'bound' in e or str(e.get('type', '')).rstrip().endswith(']'):
+                        steps.append((3, e['name'], ('array', {'#': e['bound']} if 'bound' in e else {})))
                     else:
-                        steps.append((3, e['name']))
+                        steps.append((3, e['name'], None))
                 elif ev == 'store':
                     if e['op'] == '=':
                         steps.append((0, self.st(e['lhs']), self.rv(e['rhs']), e.get('loc')))
@@ -506,6 +872,9 @@ class Code:
         return c
 
     def _crv(self, e0):
+        x = strip_load(e0)
+        if isinstance(x, dict) and x.get('k') == 'cast' and any(isinstance(y, dict) and _byte_cast(y) for y in _walk_exprs(x)):
+            return lambda m, fr: m.rval(e0, fr)                   # byte address arithmetic: the tree walker keeps the casts
         e = strip(e0)
         if not isinstance(e, dict):
             return lambda m, fr: m.rval(e0, fr)
@@ -525,12 +894,12 @@ class Code:
                 b = base(m, fr)
                 n = m.heap.nodes.get(b) if b.__class__ is str else None
                 if n is None or fld not in n:
-                    return m.load(m._field(b, fld, e))
+                    return m.value_of(m._field(b, fld, e), e)
                 return n[fld]
             return ld
         if k == 'deref':
             ptr = self.rv(e['e'])
-            return lambda m, fr: m.load(m._target(ptr(m, fr), e))
+            return lambda m, fr: m.value_of(m._target(ptr(m, fr), e), e)
         if k == 'addr':
             inner = strip(e['e'])
             if isinstance(inner, dict) and inner.get('k') == 'member' and inner['arrow']:
@@ -539,7 +908,8 @@ class Code:
                 def ad(m, fr):
                     b = base(m, fr)
                     if b.__class__ is not str:
-                        m._field(b, fld, inner)
+                        r = m._field(b, fld, inner)
+                        return ('memref', r.a, r.b)
                     return ('fieldref', b, fld)
                 return ad
             return lambda m, fr: m.rval(e, fr)
@@ -548,6 +918,8 @@ class Code:
             if e['op'] == '!':
                 return lambda m, fr: int(not m.truth(a(m, fr), e))
             return lambda m, fr: -m.num(a(m, fr), e)
+        if k == 'bin' and e['op'] in ('+', '-') and (_byte_cast(e['l']) or _byte_cast(e['r'])):
+            return lambda m, fr: m.rval(e, fr)
         if k == 'bin':
             op = e['op']
             l, r = self.rv(e['l']), self.rv(e['r'])
@@ -571,7 +943,13 @@ class Code:
             fns = {'+': operator.add, '-': operator.sub, '<': operator.lt, '>': operator.gt, '<=': operator.le, '>=': operator.ge}
             if op in fns:
                 g = fns[op]
-                return lambda m, fr: int(g(m.num(l(m, fr), e), m.num(r(m, fr), e)))
+
+                def ar(m, fr):
+                    a, b = l(m, fr), r(m, fr)
+                    if a.__class__ is int and b.__class__ is int:
+                        return int(g(a, b))
+                    return m.binop(op, a, b, e)
+                return ar
             return lambda m, fr: m.rval(e, fr)
         if k == 'cond':
             c, a, b = self.rv(e['c']), self.rv(e['a']), self.rv(e['b'])
@@ -604,24 +982,38 @@ class Code:
         k = e.get('k') if isinstance(e, dict) else None
         if k == 'var' and e.get('vk') in ('local', 'param') and '[' not in str(e.get('type', '')):
             name = e['name']
+            mask = _mask(e.get('type'))
 
             def stv(m, fr, v, loc):
-                if v.__class__ is tuple and v[0] == 'struct':
-                    v = ('struct', dict(v[1]))
+                if v.__class__ is tuple and _agg(v):
+                    v = _copyv(v)
+                elif mask is not None and v.__class__ is int:
+                    v &= mask
                 fr.vars[name] = v
             return stv
         if k == 'member' and e['arrow']:
             base, fld = self.rv(e['base']), e['field']
+            mask = _mask(e.get('type'))
 
             def stf(m, fr, v, loc):
+                if mask is not None and v.__class__ is int:
+                    v &= mask
                 b = base(m, fr)
                 n = m.heap.nodes.get(b) if b.__class__ is str else None
                 if n is None or fld not in n:
                     return m.store(m._field(b, fld, e), v, loc)
+                if v.__class__ is int and v == 0 and fld in PTR_FIELDS:
+                    v = NULL
                 m.writes.append((b, fld, n[fld], v, loc))
                 n[fld] = v
             return stf
-        return lambda m, fr, v, loc: m.store(m.lval(lhs, fr), v, loc)
+        mask = _mask(e.get('type')) if isinstance(e, dict) else None
+
+        def stg(m, fr, v, loc):
+            if mask is not None and v.__class__ is int:
+                v &= mask
+            m.store(m.lval(lhs, fr), v, loc)
+        return stg
 
     # -- calls ---------------------------------------------------------------------
     def call(self, e):
